@@ -1028,6 +1028,37 @@ class Engine:
         st.heap[f'$global:{mod}.{name}'] = z3.Store(arr, 0, coerce(v, kind).term)
 
     # ------------------------------------------------------------------ loops
+    def find_loop_spec(self, fr, s, lid):
+        """Loop contracts are anchored on the text of the iterated expression ('iter:<text>[#k]', k = k-th
+        loop over that expression in the function) so that adding or removing an unrelated loop does not
+        re-attach invariants to the wrong loop; plain ordinals are still accepted."""
+        if not fr.contract:
+            return None
+        text = ast.unparse(s.iter)
+        idx = fr.__dict__.get('loop_index')
+        if idx is None:
+            # static numbering of the function's loops by iterated-expression text, in source order
+            idx, counts = {}, {}
+            root = fr.fi.node if fr.fi is not None else None
+            for node in (ast.walk(root) if root is not None else []):
+                pass
+            if root is not None:
+                fors = [n_ for n_ in ast.walk(root) if isinstance(n_, ast.For)]
+                fors.sort(key=lambda n_: (n_.lineno, n_.col_offset))
+                for n_ in fors:
+                    t = ast.unparse(n_.iter)
+                    idx[id(n_)] = counts.get(t, 0)
+                    counts[t] = counts.get(t, 0) + 1
+            fr.__dict__['loop_index'] = idx
+        k = idx.get(id(s), 0)
+        loops = fr.contract.loops
+        for key in (f'iter:{text}#{k}', f'iter:{text}'):
+            if key in loops:
+                return loops[key]
+        if any(kk.startswith('iter:') for kk in loops):
+            return None
+        return loops.get(lid)
+
     def next_loop_id(self):
         fr = self.frames[-1]
         lid = f'{fr.loop_prefix}{fr.loop_counter}'
@@ -1089,7 +1120,7 @@ class Engine:
         if st.dead:
             return
         seq = self.iter_sequence(it, st)     # (length term, at(i)->V)
-        spec = fr.contract.loops.get(lid) if fr.contract else None
+        spec = self.find_loop_spec(fr, s, lid)
         n, at = seq
         conc = self.concrete_int(n)
         if spec is None:
